@@ -110,6 +110,7 @@ def verify_function(prop, contract, callees, lib, timeout_hint=None, hooks=None)
         if fs.is_pyx:
             ctx.cdivision = True
         ctx.strict_defined = bool(getattr(contract, "strict_defined", False))
+        ctx.inline = set((hooks or {}).get("inline", ()))
         try:
             module_env(fs, ex)
             path = Path()
